@@ -1,3 +1,327 @@
-(* C02 — placeholder until the proofs land. *)
-From Sebuf Require Import GoRtRaw.
-Example C02_placeholder : True. Proof. exact I. Qed.
+(* C02 — A request field bound to a path variable or a query parameter arrives at the handler with the
+   URL's value whenever the body does not itself mention that field, for every verb; a URL value that
+   cannot be converted, or a missing required query parameter, yields HTTP 400 naming that field and the
+   handler is not invoked.
+   Only statements, [exact <lemma>], Print Assumptions, and examples checked by computation. *)
+From Sebuf Require Import Text Json Route Schema Value Num Url GoRt GoRtRaw.
+From SebufProofs Require Import GoRtFacts GoRtRawFacts.
+
+(* ---- 1. the URL's values reach the handler ------------------------------------------------------------ *)
+
+(* [body_silent body k]: there is no body, or the body does not mention key k *)
+Theorem C02_url_wins : forall rs rq n saw c p r b m1 m2,
+  raw_handle rs rq = Ok (RDispatched n saw) ->
+  defects_C02 rs rq = [] ->
+  rq_path rq = c :: p ->
+  find_route rs (rq_verb rq) (split_on slash p) = Some (r, b) ->
+  bind_path (sr_fields r) (rt_pathvars (sr_route r)) b [] = inl m1 ->
+  bind_query_raw (sr_fields r) (query_fields (sr_fields r)) (parse_query (rq_query rq)) m1 = inl m2 ->
+  n = md_name (sr_md r) /\
+  (rq_body rq = None -> saw = m2) /\
+  forall k x, mget m2 k = Some x -> body_silent (rq_body rq) k -> mget saw k = Some x.
+Proof. exact url_wins. Qed.
+Print Assumptions C02_url_wins.
+
+(* also on keys the URL leaves unpopulated (zero values) *)
+Theorem C02_url_wins_all : forall rs rq n saw c p r b m1 m2,
+  raw_handle rs rq = Ok (RDispatched n saw) ->
+  defects_C02 rs rq = [] ->
+  rq_path rq = c :: p ->
+  find_route rs (rq_verb rq) (split_on slash p) = Some (r, b) ->
+  bind_path (sr_fields r) (rt_pathvars (sr_route r)) b [] = inl m1 ->
+  bind_query_raw (sr_fields r) (query_fields (sr_fields r)) (parse_query (rq_query rq)) m1 = inl m2 ->
+  forall k, body_silent (rq_body rq) k -> mget saw k = mget m2 k.
+Proof. exact url_wins_all. Qed.
+Print Assumptions C02_url_wins_all.
+
+(* ---- 2. what the URL binds ------------------------------------------------------------------------------ *)
+
+(* (a) path variables: the converted text of the matched segment; other keys untouched *)
+Theorem C02_path_values : forall fs b vars m m1, bind_path fs vars b m = inl m1 ->
+  (forall k, ~ In k vars -> mget m1 k = mget m k) /\
+  (forall v f, In v vars -> find_field fs v = Some f ->
+     exists x, binding_of b v <> [] /\ convert (f_kind f) (binding_of b v) = Some x /\
+               scalar_of m1 f = x).
+Proof. exact bind_path_vals. Qed.
+Print Assumptions C02_path_values.
+
+(* (a) continued: query binding leaves fields with other names alone *)
+Theorem C02_query_keeps : forall fs q qfs m m2 g,
+  NoDup (map f_name qfs) -> bind_query_raw fs qfs q m = inl m2 ->
+  ~ In (f_name g) (map f_name qfs) -> scalar_of m2 g = scalar_of m g.
+Proof. exact bind_query_raw_keeps. Qed.
+Print Assumptions C02_query_keeps.
+
+(* (b) singular query fields: the converted first occurrence *)
+Theorem C02_query_singular : forall fs q qfs m m2 f x xs,
+  NoDup (map f_name qfs) -> bind_query_raw fs qfs q m = inl m2 ->
+  In f qfs -> is_repeated f = false -> query_values q (qname f) = x :: xs ->
+  exists v, convert (f_kind f) x = Some v /\ scalar_of m2 f = v.
+Proof. exact bind_query_raw_singular. Qed.
+Print Assumptions C02_query_singular.
+
+(* (c) repeated query fields: every occurrence, converted, in order *)
+Theorem C02_query_repeated : forall fs q qfs m m2 f x xs,
+  NoDup (map f_name qfs) -> bind_query_raw fs qfs q m = inl m2 ->
+  In f qfs -> is_repeated f = true -> query_values q (qname f) = x :: xs ->
+  exists l, convert_all (f_kind f) (x :: xs) = Some l /\ mget m2 (f_name f) = Some (FL l) /\
+            Forall2 (fun y e => exists v, convert (f_kind f) y = Some v /\ e = FS v) (x :: xs) l.
+Proof. exact bind_query_raw_repeated. Qed.
+Print Assumptions C02_query_repeated.
+
+(* (a)-(c) and absent optional parameters in one statement *)
+Theorem C02_query_values : forall fs q qfs m m2,
+  NoDup (map f_name qfs) -> bind_query_raw fs qfs q m = inl m2 ->
+  (forall k, ~ In k (map f_name qfs) -> mget m2 k = mget m k) /\
+  (forall f, In f qfs -> query_gives q m m2 f).
+Proof. exact bind_query_raw_vals. Qed.
+Print Assumptions C02_query_values.
+
+(* end to end: what the handler sees *)
+Theorem C02_handler_sees_path_value : forall rs rq n saw c p r b m1 m2 v f,
+  raw_handle rs rq = Ok (RDispatched n saw) ->
+  defects_C02 rs rq = [] ->
+  rq_path rq = c :: p ->
+  find_route rs (rq_verb rq) (split_on slash p) = Some (r, b) ->
+  bind_path (sr_fields r) (rt_pathvars (sr_route r)) b [] = inl m1 ->
+  bind_query_raw (sr_fields r) (query_fields (sr_fields r)) (parse_query (rq_query rq)) m1 = inl m2 ->
+  NoDup (map f_name (query_fields (sr_fields r))) ->
+  In v (rt_pathvars (sr_route r)) -> find_field (sr_fields r) v = Some f ->
+  ~ In v (map f_name (query_fields (sr_fields r))) ->
+  body_silent (rq_body rq) v ->
+  exists x, convert (f_kind f) (binding_of b v) = Some x /\ scalar_of saw f = x.
+Proof. exact handler_sees_path_value. Qed.
+Print Assumptions C02_handler_sees_path_value.
+
+Theorem C02_handler_sees_query_value : forall rs rq n saw c p r b m1 m2 f x xs,
+  raw_handle rs rq = Ok (RDispatched n saw) ->
+  defects_C02 rs rq = [] ->
+  rq_path rq = c :: p ->
+  find_route rs (rq_verb rq) (split_on slash p) = Some (r, b) ->
+  bind_path (sr_fields r) (rt_pathvars (sr_route r)) b [] = inl m1 ->
+  bind_query_raw (sr_fields r) (query_fields (sr_fields r)) (parse_query (rq_query rq)) m1 = inl m2 ->
+  NoDup (map f_name (query_fields (sr_fields r))) ->
+  In f (query_fields (sr_fields r)) -> is_repeated f = false ->
+  query_values (parse_query (rq_query rq)) (qname f) = x :: xs ->
+  body_silent (rq_body rq) (f_name f) ->
+  exists y, convert (f_kind f) x = Some y /\ scalar_of saw f = y.
+Proof. exact handler_sees_query_value. Qed.
+Print Assumptions C02_handler_sees_query_value.
+
+Theorem C02_handler_sees_query_list : forall rs rq n saw c p r b m1 m2 f x xs,
+  raw_handle rs rq = Ok (RDispatched n saw) ->
+  defects_C02 rs rq = [] ->
+  rq_path rq = c :: p ->
+  find_route rs (rq_verb rq) (split_on slash p) = Some (r, b) ->
+  bind_path (sr_fields r) (rt_pathvars (sr_route r)) b [] = inl m1 ->
+  bind_query_raw (sr_fields r) (query_fields (sr_fields r)) (parse_query (rq_query rq)) m1 = inl m2 ->
+  NoDup (map f_name (query_fields (sr_fields r))) ->
+  In f (query_fields (sr_fields r)) -> is_repeated f = true ->
+  query_values (parse_query (rq_query rq)) (qname f) = x :: xs ->
+  body_silent (rq_body rq) (f_name f) ->
+  exists l, convert_all (f_kind f) (x :: xs) = Some l /\ mget saw (f_name f) = Some (FL l).
+Proof. exact handler_sees_query_list. Qed.
+Print Assumptions C02_handler_sees_query_list.
+
+(* ---- 3. rejection ------------------------------------------------------------------------------------------ *)
+
+(* why a path binding fails: the named variable's text is empty or does not convert *)
+Theorem C02_reject_path_reason : forall fs b vars m v, bind_path fs vars b m = inr v ->
+  In v vars /\ exists f, find_field fs v = Some f /\
+    (binding_of b v = [] \/ convert (f_kind f) (binding_of b v) = None).
+Proof. exact bind_path_reject. Qed.
+Print Assumptions C02_reject_path_reason.
+
+(* why a query binding fails: [query_fails q f] = required and absent, or some occurrence that is used
+   does not convert *)
+Theorem C02_reject_query_reason : forall fs q qfs m n, bind_query_raw fs qfs q m = inr n ->
+  exists f, In f qfs /\ f_name f = n /\ query_fails q f.
+Proof. exact bind_query_raw_reject. Qed.
+Print Assumptions C02_reject_query_reason.
+
+(* in both cases the answer is 400 naming the field; the handler is not invoked *)
+Theorem C02_reject_path : forall rs rq p r b f, routed rs rq p r b ->
+  bind_path (sr_fields r) (rt_pathvars (sr_route r)) b [] = inr f ->
+  raw_handle rs rq = Ok (RRejected f).
+Proof. exact raw_handle_reject_path. Qed.
+Print Assumptions C02_reject_path.
+
+Theorem C02_reject_query : forall rs rq p r b m1 f, routed rs rq p r b ->
+  bind_path (sr_fields r) (rt_pathvars (sr_route r)) b [] = inl m1 ->
+  bind_query_raw (sr_fields r) (query_fields (sr_fields r)) (parse_query (rq_query rq)) m1 = inr f ->
+  raw_handle rs rq = Ok (RRejected f).
+Proof. exact raw_handle_reject_query. Qed.
+Print Assumptions C02_reject_query.
+
+(* conversely: when every path variable converts and every query field is absent-and-optional or
+   converts, the request is dispatched, or rejected for its body *)
+Theorem C02_url_ok_dispatches : forall rs rq p r b, routed rs rq p r b ->
+  url_converts r b (parse_query (rq_query rq)) ->
+  (exists saw, raw_handle rs rq = Ok (RDispatched (md_name (sr_md r)) saw)) \/
+  raw_handle rs rq = Ok (RRejected (s "body")).
+Proof. exact raw_handle_url_ok. Qed.
+Print Assumptions C02_url_ok_dispatches.
+
+(* every rejection has one of the three reasons *)
+Theorem C02_rejected_inv : forall rs rq n, raw_handle rs rq = Ok (RRejected n) ->
+  exists p r b, routed rs rq p r b /\
+    ((In n (rt_pathvars (sr_route r)) /\ exists f, find_field (sr_fields r) n = Some f /\
+        (binding_of b n = [] \/ convert (f_kind f) (binding_of b n) = None)) \/
+     (exists f, In f (query_fields (sr_fields r)) /\ f_name f = n /\
+        query_fails (parse_query (rq_query rq)) f) \/
+     (n = s "body" /\ rt_body (sr_route r) = true /\
+      exists f v, rq_body rq = Some (f, v) /\ bfmt_eqb f (server_fmt (rq_ct rq)) = false)).
+Proof. exact raw_handle_rejected_inv. Qed.
+Print Assumptions C02_rejected_inv.
+
+(* ---- 4. conversion over all strings --------------------------------------------------------------------------- *)
+
+Theorem C02_parse_int_range : forall bits x z, parse_int bits x = Some z ->
+  (- 2 ^ Z.of_N (bits - 1) <= z < 2 ^ Z.of_N (bits - 1))%Z.
+Proof. exact parse_int_range. Qed.
+Print Assumptions C02_parse_int_range.
+
+Theorem C02_parse_uint_range : forall bits x z, parse_uint bits x = Some z ->
+  (0 <= z < 2 ^ Z.of_N bits)%Z.
+Proof. exact parse_uint_range. Qed.
+Print Assumptions C02_parse_uint_range.
+
+(* [int_body x] is x without its optional leading sign *)
+Theorem C02_parse_int_syntax : forall bits x z, parse_int bits x = Some z ->
+  int_body x <> [] /\ forallb is_digit (int_body x) = true.
+Proof. exact parse_int_syntax. Qed.
+Print Assumptions C02_parse_int_syntax.
+
+Theorem C02_parse_uint_syntax : forall bits x z, parse_uint bits x = Some z ->
+  x <> [] /\ forallb is_digit x = true.
+Proof. exact parse_uint_syntax. Qed.
+Print Assumptions C02_parse_uint_syntax.
+
+Theorem C02_parse_int_empty : forall bits, parse_int bits [] = None.
+Proof. exact parse_int_empty. Qed.
+Print Assumptions C02_parse_int_empty.
+
+Theorem C02_parse_uint_empty : forall bits, parse_uint bits [] = None.
+Proof. exact parse_uint_empty. Qed.
+Print Assumptions C02_parse_uint_empty.
+
+Theorem C02_parse_int_sign_only : forall bits x, int_body x = [] -> parse_int bits x = None.
+Proof. exact parse_int_sign_only. Qed.
+Print Assumptions C02_parse_int_sign_only.
+
+Theorem C02_parse_int_nondigit : forall bits x,
+  forallb is_digit (int_body x) = false -> parse_int bits x = None.
+Proof. exact parse_int_nondigit. Qed.
+Print Assumptions C02_parse_int_nondigit.
+
+Theorem C02_parse_uint_nondigit : forall bits x, forallb is_digit x = false -> parse_uint bits x = None.
+Proof. exact parse_uint_nondigit. Qed.
+Print Assumptions C02_parse_uint_nondigit.
+
+Theorem C02_parse_bool_spelling : forall x b, parse_bool x = Some b ->
+  In x (if b then bool_true_spellings else bool_false_spellings).
+Proof. exact parse_bool_spelling. Qed.
+Print Assumptions C02_parse_bool_spelling.
+
+(* whatever the server accepts is a value of the field's type *)
+Theorem C02_convert_typed : forall k x v, convert k x = Some v ->
+  typed_scalar k v /\ url_kind_ok k = true.
+Proof. exact convert_typed. Qed.
+Print Assumptions C02_convert_typed.
+
+Theorem C02_convert_all_none : forall k xs, convert_all k xs = None ->
+  exists x, In x xs /\ convert k x = None.
+Proof. exact convert_all_none. Qed.
+Print Assumptions C02_convert_all_none.
+
+(* ---- 5. examples ------------------------------------------------------------------------------------------------ *)
+
+Definition mkf (n : str) (num : Z) (k : kind) (c : card) (q : option query_cfg) : field :=
+  {| f_name := n; f_number := num; f_kind := k; f_card := c; f_oneof := None; f_query := q;
+     f_unwrap := false; f_int64 := None; f_enumenc := None; f_nullable := None; f_empty := None;
+     f_tsfmt := None; f_bytesenc := None; f_oneof_value := None; f_flatten := None;
+     f_flatten_prefix := None |}.
+Definition mkmsg (n : str) (fs : list field) : message :=
+  {| m_name := n; m_path := [n]; m_fields := fs; m_oneofs := [] |}.
+Definition mkmd (n inp path : str) (v : nat) : method :=
+  {| md_name := n; md_in := inp; md_out := s "Resp"; md_has_cfg := true; md_path := path;
+     md_verb := Some v; md_headers := [] |}.
+
+(* PUT /items/{id}?page=  (body: note)     GET /items/{id}?tag=&tag=&q=&limit= *)
+Definition put_md := mkmd (s "PutItem") (s "PutReq") (s "/items/{id}") 3.
+Definition get_md := mkmd (s "GetItem") (s "GetReq") (s "/items/{id}") 1.
+Definition put_msg := mkmsg (s "PutReq")
+  [mkf (s "id") 1 KString Singular None;
+   mkf (s "page") 2 KInt32 Singular (Some {| q_name := s "page"; q_required := false |});
+   mkf (s "note") 3 KString Singular None].
+Definition get_msg := mkmsg (s "GetReq")
+  [mkf (s "id") 1 KString Singular None;
+   mkf (s "tags") 2 KString Repeated (Some {| q_name := s "tag"; q_required := false |});
+   mkf (s "q") 3 KString Singular (Some {| q_name := s "q"; q_required := true |});
+   mkf (s "limit") 4 KUint32 Singular (Some {| q_name := s "limit"; q_required := false |})].
+Definition sv1 : service :=
+  {| sv_name := s "Items"; sv_base := []; sv_headers := []; sv_methods := [put_md; get_md] |}.
+Definition fl1 : file :=
+  {| fl_path := s "a.proto"; fl_package := s "pkg"; fl_gopkg := s "pkg"; fl_generate := true;
+     fl_messages := [put_msg; get_msg]; fl_enums := []; fl_services := [sv1] |}.
+Definition item_pat : list seg := [SLit (s "items"); SVar (s "id")].
+Definition put_route : sroute := sroute_of [fl1] fl1 sv1 put_md item_pat.
+Definition get_route : sroute := sroute_of [fl1] fl1 sv1 get_md item_pat.
+Definition rs1 : list sroute := [put_route; get_route].
+
+Example C02_routes_are_the_generated_ones : server_routes [fl1] fl1 sv1 = Ok (Some rs1).
+Proof. vm_compute. reflexivity. Qed.
+
+(* refutation: PUT /items/xyz?page=9 with body {} — the URL binds id and page, the handler sees neither *)
+Definition rq_put : raw_req :=
+  {| rq_verb := PUT; rq_path := s "/items/xyz"; rq_query := s "page=9"; rq_ct := CtJSON;
+     rq_body := Some (BJson, []) |}.
+Definition put_m1 : mval := [(s "id", FS (VStr (s "xyz")))].
+Definition put_m2 : mval := [(s "id", FS (VStr (s "xyz"))); (s "page", FS (VInt 9))].
+
+Example C02_refuted_body_resets_url_fields :
+  defects_C02 rs1 rq_put = [C02BodyResetsUrlFields] /\
+  find_route rs1 PUT (split_on slash (s "items/xyz")) = Some (put_route, [(s "id", s "xyz")]) /\
+  bind_path (sr_fields put_route) (rt_pathvars (sr_route put_route)) [(s "id", s "xyz")] [] = inl put_m1 /\
+  bind_query_raw (sr_fields put_route) (query_fields (sr_fields put_route))
+     (parse_query (rq_query rq_put)) put_m1 = inl put_m2 /\
+  raw_handle rs1 rq_put = Ok (RDispatched (s "PutItem") []).
+Proof. vm_compute. repeat split; reflexivity. Qed.
+
+(* the same request without a body: the handler sees the URL's values *)
+Definition rq_put_nobody : raw_req :=
+  {| rq_verb := PUT; rq_path := s "/items/xyz"; rq_query := s "page=9"; rq_ct := CtJSON; rq_body := None |}.
+Example C02_put_without_body :
+  defects_C02 rs1 rq_put_nobody = [] /\ raw_handle rs1 rq_put_nobody = Ok (RDispatched (s "PutItem") put_m2).
+Proof. vm_compute. split; reflexivity. Qed.
+
+(* non-vacuity of C02_url_wins: GET with an escaped path value, a repeated parameter given twice, and the
+   required parameter present *)
+Definition rq_get : raw_req :=
+  {| rq_verb := GET; rq_path := s "/items/a%2Fb"; rq_query := s "tag=x&q=hello+world&tag=y%26z";
+     rq_ct := CtJSON; rq_body := None |}.
+Definition get_b : list (str * str) := [(s "id", s "a/b")].
+Definition get_m1 : mval := [(s "id", FS (VStr (s "a/b")))].
+Definition get_m2 : mval :=
+  [(s "id", FS (VStr (s "a/b"))); (s "tags", FL [FS (VStr (s "x")); FS (VStr (s "y&z"))]);
+   (s "q", FS (VStr (s "hello world")))].
+
+Example C02_url_wins_nonvacuous :
+  raw_handle rs1 rq_get = Ok (RDispatched (s "GetItem") get_m2) /\
+  defects_C02 rs1 rq_get = [] /\
+  rq_path rq_get = slash :: s "items/a%2Fb" /\
+  find_route rs1 (rq_verb rq_get) (split_on slash (s "items/a%2Fb")) = Some (get_route, get_b) /\
+  bind_path (sr_fields get_route) (rt_pathvars (sr_route get_route)) get_b [] = inl get_m1 /\
+  bind_query_raw (sr_fields get_route) (query_fields (sr_fields get_route))
+     (parse_query (rq_query rq_get)) get_m1 = inl get_m2 /\
+  body_silent (rq_body rq_get) (s "tags").
+Proof. vm_compute. repeat split; reflexivity. Qed.
+
+(* rejections: a value that does not convert, and a missing required parameter *)
+Definition rq_bad : raw_req :=
+  {| rq_verb := GET; rq_path := s "/items/a"; rq_query := s "q=1&limit=-3"; rq_ct := CtJSON; rq_body := None |}.
+Definition rq_missing : raw_req :=
+  {| rq_verb := GET; rq_path := s "/items/a"; rq_query := s "limit=3"; rq_ct := CtJSON; rq_body := None |}.
+Example C02_rejections :
+  raw_handle rs1 rq_bad = Ok (RRejected (s "limit")) /\ raw_handle rs1 rq_missing = Ok (RRejected (s "q")).
+Proof. vm_compute. split; reflexivity. Qed.
